@@ -133,7 +133,7 @@ def _scratch(tag="run", skeleton=()):
     (re)created empty (rmdir is slow on the file system of the sandbox, so the big explorations
     start from an existing, empty database skeleton and a smaller one from a bare directory)."""
     base = _WORK or os.path.join(VERIF, ".work", "C20-adhoc-%d" % os.getpid())
-    d = os.path.join(base, "p%d" % os.getpid(), tag)
+    d = os.path.join(base, "p%d" % (_OWNER or os.getpid()), tag)
     os.chdir(VERIF)
     keep = {os.path.normpath(os.path.join(d, k)) for k in skeleton}
     if os.path.isdir(d):
@@ -199,6 +199,73 @@ def _put(path, data):
 def _get(path):
     with open(path, "rb") as fh:
         return fh.read()
+
+
+_OWNER = None    # pid of the process that owns the scratch directory (the one that forks)
+
+
+def _isolated(fn, *args):
+    """Run fn(*args) in a forked child of this process and return its result.  Every execution on
+    the real code runs this way: the child starts from the state this process had right after
+    importing the library, whatever the code under test keeps in module globals, class attributes,
+    default arguments or closures - nothing can leak from one replayed history into the next."""
+    global _OWNER
+    import pickle
+    import traceback
+    _OWNER = os.getpid()
+    sys.stdout.flush()
+    sys.stderr.flush()
+    rfd, wfd = os.pipe()
+    pid = os.fork()
+    if pid == 0:
+        code = 0
+        try:
+            os.close(rfd)
+            try:
+                res = ("ok", fn(*args))
+            except BaseException as exc:  # noqa
+                tb = traceback.extract_tb(exc.__traceback__)
+                inner = os.path.abspath(tb[-1].filename) if tb else ""
+                res = ("err", traceback.format_exc(), inner, repr(exc))
+            with os.fdopen(wfd, "wb") as fh:
+                pickle.dump(res, fh)
+        except BaseException:  # noqa
+            code = 1
+        finally:
+            os._exit(code)
+    os.close(wfd)
+    with os.fdopen(rfd, "rb") as fh:
+        data = fh.read()
+    os.waitpid(pid, 0)
+    if not data:
+        raise RuntimeError("isolated child died without an answer")
+    res = pickle.loads(data)
+    if res[0] == "err":
+        raise RuntimeError("isolated child failed:\n" + res[1])
+    return res[1]
+
+
+def _as_part(fn, *args):
+    part = Partial()
+    fn(part, *args)
+    os.chdir(VERIF)
+    return part
+
+
+def _case(dst, fn, *args):
+    """Run fn(part, *args) in isolation and add what it reports to dst (a Partial or the Ctx)."""
+    src = _isolated(_as_part, fn, *args)
+    if hasattr(dst, "merge"):
+        dst.merge(src)
+        return
+    dst.evals += src.evals
+    dst.nontrivial += src.nontrivial
+    dst.nviol += src.nviol
+    dst.viols += src.viols[:max(0, dst.MAXV - len(dst.viols))]
+    dst.samples += src.samples[:max(0, 3 - len(dst.samples))]
+    for k, n in src.counters.items():
+        dst.counters[k] = dst.counters.get(k, 0) + n
+    dst.outcomes |= src.outcomes
 
 
 def _tup(x):
@@ -446,8 +513,7 @@ def _ref(pi):
     pi = tuple(pi)
     if pi not in _REF:
         Perm, PinWords, _ = _lib()
-        for _, f in _lru_caches():
-            f.cache_clear()
+        _reset()
         d = PinWords.make_dfa_for_perm(Perm(pi))
         _LIBDFA[pi] = d
         _LIBREPR[pi] = repr(d)
@@ -618,8 +684,7 @@ class DbModel:
                 v["op"] = "load of %r after the history (memo as left by the history)" % (p,)
                 first_v = v
         # B: as a new process would see the directory
-        for _, f in _lru_caches():
-            f.cache_clear()
+        _reset()
         for p in self.pool:
             bad = is_bad(p)
             val, exc, _ = _call(PinWords.load_dfa_for_perm, Perm(p))
@@ -661,7 +726,7 @@ def _bfs_shard(shard):
         hist = _tup(hist)
         todo = [hist] if ops is None else [hist + (_tup(op),) for op in ops]
         for nh in todo:
-            dg, viols, enabled, outcomes, nontriv = model.build(nh)
+            dg, viols, enabled, outcomes, nontriv = _isolated(model.build, nh)
             part.add(1, 0)
             part.outcomes |= outcomes
             out.append((nh, dg, enabled, nontriv, viols))
@@ -753,7 +818,7 @@ def _bisc_trunc_case(part, pi, n, kind):
 def shard_bisc_trunc(shard):
     part = Partial()
     for pi, n, kind in shard:
-        _bisc_trunc_case(part, pi, n, kind)
+        _case(part, _bisc_trunc_case, pi, n, kind)
     os.chdir(VERIF)
     return part
 
@@ -764,8 +829,7 @@ def _db_trunc_case(part, pi, only_k=None):
     _reset()
     pi = tuple(pi)
     _ref(pi)
-    for _, f in _lru_caches():
-        f.cache_clear()
+    _reset()
     _, exc, _ = _call(PinWords.store_dfa_for_perm, Perm(pi))
     path = _dbpath(pi)
     if exc is not None or not os.path.isfile(path):
@@ -777,8 +841,7 @@ def _db_trunc_case(part, pi, only_k=None):
     from automata.fa.dfa import DFA
     for k in ks:
         _put(path, data[:k])
-        for _, f in _lru_caches():
-            f.cache_clear()
+        _reset()
         val, exc, _ = _call(PinWords.load_dfa_for_perm, Perm(pi))
         v, oc = _judge_dfa(val, exc, [pi], k < len(data))
         part.outcomes.add("dbtrunc:" + oc)
@@ -796,7 +859,7 @@ def _db_trunc_case(part, pi, only_k=None):
 def shard_db_trunc(shard):
     part = Partial()
     for pi in shard:
-        _db_trunc_case(part, pi)
+        _case(part, _db_trunc_case, pi)
     os.chdir(VERIF)
     return part
 
@@ -909,7 +972,7 @@ def _roundtrip_case(part, names, n):
 def shard_roundtrip(shard):
     part = Partial()
     for names, n in shard:
-        _roundtrip_case(part, names, n)
+        _case(part, _roundtrip_case, names, n)
     os.chdir(VERIF)
     return part
 
@@ -1068,7 +1131,7 @@ def shard_level(shard):
 
 def _observe(kind, params, hist):
     model = _model(kind, params)
-    dg, viols, enabled, outcomes, _ = model.build(_tup(hist))
+    dg, viols, enabled, outcomes, _ = _isolated(model.build, _tup(hist))
     return {"digest": dg, "violations": json.loads(json.dumps(viols, default=repr)),
             "enabled": json.loads(json.dumps(enabled)), "outcomes": sorted(outcomes)}
 
@@ -1236,7 +1299,7 @@ def run(ctx, only=None):
         ctx.section("db_trunc", evaluations=ctx.evals - e0)
     if want("malformed"):
         for idx in list(range(len(MALFORMED))) + ["missing", "directory", "missing-dir"]:
-            _malformed_case(ctx, idx)
+            _case(ctx, _malformed_case, idx)
         os.chdir(VERIF)
         ctx.bounds["malformed"] = "%d literal contents + missing file, directory, missing directory" % len(MALFORMED)
     if want("roundtrip"):
@@ -1257,18 +1320,17 @@ def run(ctx, only=None):
         kref, klib = (8, 6) if quick else (8, 8)
         ctx.pmap(shard_shipped, [(nm, kref, klib) for nm in NAMES])
         total = math.factorial(8)
-        per = total // 4
+        per = total // 2
         ctx.pmap(shard_level, [(nm, 8, 8, lo, min(total, lo + per), kref >= 8, klib >= 8)
                                for nm in NAMES for lo in range(0, total, per)])
         nine = sorted(fn[:-len("_good_len9.json")] for fn in os.listdir(_SHIPPED) if fn.endswith("_good_len9.json"))
-        if not quick:
-            total = math.factorial(9)
-            per = total // 48
-            ctx.pmap(shard_level, [(nm, 9, 9, lo, min(total, lo + per), True, True)
-                                   for nm in nine for lo in range(0, total, per)])
+        total = math.factorial(9)
+        per = total // 16
+        ctx.pmap(shard_level, [(nm, 9, 9, lo, min(total, lo + per), True, not quick)
+                               for nm in nine for lo in range(0, total, per)])
         ctx.bounds["shipped"] = {"sets": NAMES, "partition_checked_for_levels": "0..8",
                                  "definition_compared_up_to_level": kref, "library_predicate_up_to_level": klib,
-                                 "len9_good_files": nine, "level_9_compared": not quick}
+                                 "len9_good_files": nine, "level_9": "definition" if quick else "definition and library predicate"}
         ctx.section("shipped", evaluations=ctx.evals - e0)
     if want("fresh") and (want("bisc_hist") and want("db_hist")):
         e0 = ctx.evals
@@ -1297,18 +1359,18 @@ def replay(ctx, rec):
             model = _model(case["model"], case["params"])
             hist = _tup(case["history"])
             for i in range(0, len(hist) + 1):
-                _, viols, _, _, _ = model.build(hist[:i])
+                _, viols, _, _, _ = _isolated(model.build, hist[:i])
                 if viols:
                     ctx.violation(sub, case, viols[0])
                     break
         elif sub == "bisc_trunc":
-            _bisc_trunc_case(ctx, case["prop"], case["n"], case["kind"])
+            _case(ctx, _bisc_trunc_case, case["prop"], case["n"], case["kind"])
         elif sub == "db_trunc":
-            _db_trunc_case(ctx, tuple(case["perm"]), only_k=case.get("prefix_bytes"))
+            _case(ctx, _db_trunc_case, tuple(case["perm"]), case.get("prefix_bytes"))
         elif sub == "malformed":
-            _malformed_case(ctx, case["input"])
+            _case(ctx, _malformed_case, case["input"])
         elif sub == "roundtrip":
-            _roundtrip_case(ctx, tuple(case["props"]), case["n"])
+            _case(ctx, _roundtrip_case, tuple(case["props"]), case["n"])
         elif sub == "shipped":
             name = case.get("set")
             if name is None:
@@ -1316,9 +1378,10 @@ def replay(ctx, rec):
             elif case.get("level") == 9:
                 ctx.merge(shard_level((name, 9, 9, 0, math.factorial(9), True, True)))
             else:
-                ctx.merge(shard_shipped((name, 8, 8)))
-                if not ctx.nviol:
-                    ctx.merge(shard_level((name, 8, 8, 0, math.factorial(8), True, True)))
+                part = shard_shipped((name, 8, 8))
+                if not part.nviol:
+                    part = shard_level((name, 8, 8, 0, math.factorial(8), True, True))
+                ctx.merge(part)
         elif sub == "fresh":
             ctx.merge(shard_fresh((case["model"], case["params"], case["history"])))
         else:
